@@ -28,7 +28,8 @@ theorem token_positions_exact (s : Bytes) (toks : List Tok) (h : lex Gen.lexTabl
     ∀ t ∈ toks, t.off ≤ s.length ∧ (t.line, t.col) = lineCol (s.take t.off) := by
   have := lex_pos Gen.lexTables gen_tag_tables_ok gen_markers_ok s
   rw [h] at this
-  exact this
+  intro t ht
+  exact ⟨(this t ht).1, (this t ht).2.1⟩
 
 /-- **Every lexer error points at a position inside the source**: the reported line and column are
     the closed form for a prefix of the source (the start of the construct that is wrong). -/
